@@ -25,7 +25,7 @@ SoloOk(e) ==
   /\ e.reader_steps <= B(e.nodes, e.bins, e.nops)
 
 Init == tr \in 1..Len(Traces) /\ l = 1
-Next == /\ l <= Len(Ev) /\ SoloOk(Ev[l]) /\ l' = l + 1 /\ UNCHANGED tr
+Next == /\ l <= Len(Ev) /\ l' = l + 1 /\ UNCHANGED tr /\ SoloOk(Ev[l])
 Spec == Init /\ [][Next]_vars
 Done == l > Len(Ev)
 Report ==
